@@ -382,6 +382,46 @@ REQUERY = {
 }
 
 
+MAPQUERY = {
+    'inverse': lambda M, m, a: (lambda x: (x.gs, x.ps))(m.inverse()),
+    'to_state': lambda M, m, a: (lambda x: (x.gs, x.ps, x.r))(m.to_state()),
+    'compose': lambda M, m, a: (lambda x: (x.gs, x.ps))(m.compose(a)),
+    'compose_into': lambda M, m, a: (lambda x: (x.gs, x.ps))(a.compose(m)),
+    'copy': lambda M, m, a: (lambda x: (x.gs, x.ps))(m.copy()),
+    'apply': lambda M, m, a: (lambda o: (o.gs, o.ps))(M.pa.PauliList(a.gs[:1].copy(), a.ps[:1].copy()).transform_by(m)),
+}
+
+
+def h_requery_map(env, N, name, change):
+    """stale-state guard for Clifford maps: query, change the map in place (rotate_by, or a masked transform_by), query
+    again -- the second answer must be the answer a freshly constructed equal map gives"""
+    from .c13 import same
+    M = Mods(env)
+    mg = env.bits('map', (2 * N, 2 * N))
+    mp = env.signs('map_sign', (2 * N,))
+    env.assume(ref.symplectic(mg), 'map valid')
+    m = M.st.CliffordMap(mg.copy(), mp.copy())
+    ag = env.bits('other', (2 * N, 2 * N))
+    ap = env.signs('other_sign', (2 * N,))
+    other = M.st.CliffordMap(ag.copy(), ap.copy())
+    q = MAPQUERY[name]
+    first = env.run(lambda: q(M, m, other))
+    env.goal('first_no_exception', b_not(first.raised))
+    gg = env.bits('gen', (2 * N,))
+    if change == 'rotate':
+        mut = env.run(lambda: m.rotate_by(M.pa.Pauli(gg.copy(), 0)))
+    else:
+        mk = np.array([True] + [False] * (N - 1))
+        mut = env.run(lambda: m.rotate_by(M.pa.Pauli(gg[:2].copy(), 0), mk))
+    env.goal('change_no_exception', b_not(mut.raised))
+    fresh = M.st.CliffordMap(m.gs.copy(), m.ps.copy())
+    second = env.run(lambda: q(M, m, other))
+    want = env.run(lambda: q(M, fresh, other))
+    env.goal('second_no_exception', b_not(b_or(second.raised, want.raised)))
+    if second.value is not None and want.value is not None:
+        env.goal('second_answer_is_the_fresh_answer', same(second.value, want.value))
+
+
 def h_requery(env, N, r, name, change):
     """stale-state guard: query, change the receiver in place (sign-only change = two rotations by one generator, or a
     single rotation), query again -- the second answer must be the answer a freshly constructed equal object gives"""
@@ -439,6 +479,10 @@ def jobs(tier):
                     if name == 'entropy' and r == N:
                         continue
                     J.append(dict(harness=('c17', 'h_requery'), params=dict(N=N, r=r, name=name, change=change), timeout_s=600, cost=15, max_paths=6000))
+    for N in (1, 2):
+        for name in MAPQUERY:
+            for change in ('rotate', 'masked'):
+                J.append(dict(harness=('c17', 'h_requery_map'), params=dict(N=N, name=name, change=change), timeout_s=600, cost=15, max_paths=6000))
     for kind in ('Pauli', 'PauliList', 'CliffordMap', 'StabilizerState', 'StabilizerState1'):
         J.append(dict(harness=('c17', 'h_repr'), params=dict(N=1, kind=kind), max_paths=5000))
     from .c09 import tuples
